@@ -319,6 +319,8 @@ MCCfgs(ww) == {c \in [kind : Kinds, est : Ests, gthr : {0, 9, 1000}, thr : {0, 8
                       width : {8}, stat : {"none"}, cb : {"v0"}] :
                  /\ c.est # "disabled" => c.gthr > 0
                  /\ c.kind # "dynamic" => c.thr = 0 /\ c.gthr = 1000 /\ c.est = "links"}
+\* the as-built model (all deviations enabled): dynamic directories, thresholds at the boundary
+MCCfgsDyn(ww) == {c \in MCCfgs(ww) : c.kind = "dynamic" /\ c.gthr \in {0, 9}}
 \* C15 alone: all kinds, one threshold, no per-directory value
 MCCfgsMap(ww) == {c \in MCCfgs(ww) : c.thr = 0 /\ c.gthr \in {9, 1000} /\ c.est # "block"}
 =============================================================================
